@@ -101,7 +101,7 @@ def ops_for(rng, d, path, comments, depth):
 
 
 def gen_case(rng, idx):
-    so = G.SchemaOpts(keystrval=True, nodefault=True)
+    so = G.SchemaOpts(keystrval=True, nodefault=True, oddnames=True)
     decls = G.gen_schema(rng, so)
     comments = rng.random() < 0.3
     toks = G.gen_text(rng, decls, to={'oddkeys': True}) if rng.random() < 0.8 else []
